@@ -1,7 +1,7 @@
 """What each registered check runs.  One table, so quick/thorough depth per property is visible in one place."""
 from . import core_check
 
-ASBUILT = ["del_marker_claims_reindented_line"]
+ASBUILT = ["del_marker_claims_reindented_line", "initial_is_line_numbers_only"]
 
 RENDERS = [("plain", "plain"), ("hostile", "plain"), ("crlf", "subdir"), ("nonl", "spaces"),
            ("multibyte", "unicode"), ("long", "plain"), ("tabs", "dashy"), ("plain", "quoted")]
